@@ -266,3 +266,17 @@ func specFiniteFloat32(f float32) bool {
 //@   at maybe-call (*PrintCtx).WriteByte effect ghost.ioBrace = callee.c
 //@   at call github.com/hedzr/logg/slog.ftoasimple[float32] assert [C04.float-json] implies(s.jsonMode && !specFiniteFloat32(val), ghost.ioBrace == 34)
 //@   ensures [C04.float-json-close] implies(s.jsonMode && !specFiniteFloat32(val), ghost.ioBrace == 34)
+
+// ---- []byte values go through the quoting path like strings (C04 C05 C06)
+//@ func (*PrintCtx).appendBytes
+//@   props C02 C04 C05 C06
+//@   auto
+//@   ensures [C05.quoted] grown(s.buf, old(s.buf)) && len(s.buf) >= old(len(s.buf)) + 2 && forall(k, 0, old(len(s.buf)), s.buf[k] == old(s.buf[k])) && s.buf[old(len(s.buf))] == 34 && s.buf[len(s.buf)-1] == 34 && forall(k, old(len(s.buf)), len(s.buf), s.buf[k] >= 32 && s.buf[k] != 127) && forall(k, old(len(s.buf))+1, len(s.buf)-1, implies(s.buf[k] == 34, s.buf[k-1] == 92))
+
+// ---- continuation lines (C06): every line handed to the decorator starts with the lead (count pad characters),
+// and a text of one line is returned with the lead in front of it
+//@ func (colorizeToolS).padFunc
+//@   props C02 C06
+//@   auto
+//@   at call fn assert [C06.indent] implies(count >= 0 && len(padChar) == 1, len(callee.a1) >= count && forall(k, 0, count, callee.a1[k] == padChar[0]))
+//@   ensures [C06.indent-single] ghost.ioContains || implies(count >= 0 && len(padChar) == 1, len(result) == count + len(str) && forall(k, 0, count, result[k] == padChar[0]) && forall(k, 0, len(str), result[count+k] == str[k]))
